@@ -70,6 +70,24 @@ def run(ctx):
             diffs.append({"ops": [str(o_)[:60] for o_ in ops], "impl_len": len(kb), "model": mouts[-1][:80]})
         elif len(samples) < 4:
             samples.append({"header": ops[0][1], "key_len": len(ops[-1][1]), "mask": ops[-1][2], "key_block_len": len(kb)})
+    # --- headers so large that masking decides whether the block fits: every key within the mask must meet the SAME fate
+    for v in "ABCD":
+        for dl in range(9860, 9970, 8):
+            h = tr31.Header(v, "P0", "T", "E", "00", "N")
+            h.blocks["T1"] = "x" * dl
+            fates = set()
+            for kl in (0, 8, 16, 24):
+                evals += 1
+                try:
+                    fates.add(("ok", len(tr31.wrap(rng.randbytes(16), h, bytes(kl)))))
+                except tr31.HeaderError:
+                    fates.add(("HeaderError",))
+                except Exception as e:  # noqa: BLE001
+                    fates.add((type(e).__name__,))
+            if len(fates) != 1:
+                viol.append({"what": "near the 9999-character limit the outcome of wrap depends on the key length within the mask",
+                             "input": {"v": v, "alg": "T", "mask": None, "optional_block_data_length": dl, "key_lengths": [0, 8, 16, 24]},
+                             "expected": "one outcome for all four keys", "observed": sorted(map(str, fates))})
     # --- a reused KeyBlock whose algorithm (hence default mask) changes between wraps: lengths must follow the CURRENT algorithm
     seqs = []
     for v in "ABCD":
